@@ -81,6 +81,7 @@ def big_str(rng):
         return 'x' * n
     return ('a' * (n - 2) + '€') * 2
 
+MANY = [63, 64, 65, 255, 256, 1023, 1024, 1025, 2048]      # item counts of occasional large arrays and maps
 MID = [62, 63, 64, 65, 66]       # byte lengths around the 1-byte / 2-byte boundary of the length prefix (zig-zag 64 = 0x80 0x01)
 
 def mid_str(rng):
@@ -296,6 +297,11 @@ def gen_schema(ctx, depth, ens, in_union=False, rec_stack=()):
         ctx.kinds["array"] = ctx.kinds.get("array", 0) + 1
         def g(r, d, it=it):
             n = 0 if d > 4 else r.choice([0, 1, 2, 3, 5])
+            if d <= 1 and r.chance(1, 50):
+                # a large collection, its size around a power of two (block splitting, count prefixes of 2 bytes);
+                # the items are generated as if deeply nested, so that they stay small
+                n = r.choice(MANY)
+                return "(array%s)" % ''.join(' ' + it.gen(r, d + 4) for _ in range(n))
             return "(array%s)" % ''.join(' ' + it.gen(r, d + 1) for _ in range(n))
         return Node({"type": "array", "items": it.json}, g, "array")
     if choice == 3:
@@ -303,6 +309,9 @@ def gen_schema(ctx, depth, ens, in_union=False, rec_stack=()):
         ctx.kinds["map"] = ctx.kinds.get("map", 0) + 1
         def g(r, d, vt=vt):
             n = 0 if d > 4 else r.choice([0, 1, 2, 3])
+            if d <= 1 and r.chance(1, 80):
+                n = r.choice(MANY)
+                return "(map%s)" % ''.join(' (kv %s %s)' % (hx('k%d' % q), vt.gen(r, d + 4)) for q in range(n))
             keys = []
             while len(keys) < n:
                 k = gen_str(r)
